@@ -31,3 +31,8 @@ package mgr
 
 //@ type WorkerCtx
 //@   invariant context [C13]: nonnil(self.ctx)
+
+// "All workers are done" is signalled only by the worker whose exit brings the count to zero.
+//@ func Manager.workerDone
+//@   requires m != nil && m.workersDone != nil
+//@   callsite chan-send waiters-notified-only-by-the-last-worker [C20]: old(m.workerCnt.v) == 1 && arg0 == m.workersDone
